@@ -31,9 +31,12 @@ def rnd_inputs(rnd, op):
     elif op == "create_schedule":
         t = lambda: rnd.choice(["00:00", "23:59", "7:5", "12:30", "24:00", "12:60", "1230", "12:30:15", " 12:30", "ab:cd", "",
                                 f"{rnd.randrange(24):02d}:{rnd.randrange(60):02d}"])
-        i["start"], i["end"] = t(), t()
+        good = lambda: f"{rnd.randrange(24):02d}:{rnd.randrange(60):02d}"
+        i["start"], i["end"] = (good(), good()) if rnd.random() < 0.6 else (t(), t())
         ds = [rnd.choice(list(Days)) for _ in range(rnd.randrange(0, 4))]
-        i["days"] = canon(set(ds)) if rnd.random() < 0.6 else canon(ds)
+        if rnd.random() < 0.3 and ds:
+            ds.append(ds[0])                      # a day named twice
+        i["days"] = canon(set(ds)) if rnd.random() < 0.4 else canon(rnd.choice([ds, tuple(ds)]))
     elif op == "set_position":
         i["position"] = rnd.choice([0, 1, 15, 16, 50, 100, rnd.randrange(101)])
     return i
